@@ -312,7 +312,7 @@ pub fn run(tier: Tier, seed: u64) -> i32 {
         c.sub = "pratt".into();
         (c, Fail::new(f.sig.replace("C09/", "C07/pratt-"), f.msg))
     });
-    let n = ctx.pick(1_200_000, 15_000_000);
+    let n = ctx.pick(3_000_000, 18_000_000);
     ctx.par_random(n, 200, 7, |tape, l| {
         let (g, input, sub, seed) = decode(tape);
         debug_assert!(wf(&g), "ill-formed: {}", render(&g));
